@@ -8,6 +8,10 @@ claimed = {
  "C04": ("bridge", "exploration", "5 C04", "seeded multi-user multi-token bridge histories; conservation equations per token group, per-step balance deltas, withdrawability, evaluated after every step on committed state"),
  "C05": ("bridge", "exploration", "5 C05", "seeded send/cancel/fee-bump/batch/timeout/relay races; observational life-cycle model of every outgoing transfer and bridge call checked against raw pool/batch/call stores after every step"),
  "C06": ("bridge", "exploration", "5 C06", "seeded external-height/observation-lag/relayer schedules (late, out of order, after cancel); executable model of FxBridgeLogic.sol is the judge for never-both; timeout-proved on observed heights"),
+ "C09": ("evm", "fault_enumeration", "5 C09", "generated agent-contract call trees (hand-assembled EVM bytecode) x revert placement x gas ladder; the return-data bitmap of the top-level call is the kept set K; the full store dump after the run must equal the dump after executing exactly the kept calls (mask replay) on a branch of the same state"),
+ "C10": ("evm", "exploration", "5 C10", "victims that never sign vs attacker EOAs/contracts (incl. contracts the victim calls), forbidden call kinds, static frames, governance switches; victims' portfolios must not shrink except through share allowances"),
+ "C11": ("evm", "exploration", "5 C11", "seeded staking-precompile histories incl. self transfers, reward blocks and validator downtime slashing; per-transfer share deltas, all registered crisis invariants on a branch after every step, exit liveness at end of run"),
+ "C19": ("ibc", "exploration", "5 C19", "09-localhost loop-back channels through real IBC core messages; seeded relayer faults (loss, duplication, reordering, forged acks, early timeouts, clock jumps); exact ledger of ERC-20/FX credits and refunds, dump equality on error acks, relation cleanup after honest drain"),
  "C12": ("bridge", "exploration", "5 C12", "honest oracles sign digests from an independent ABI encoder; Byzantine confirmations (wrong key/object/chain id/prefix/truncated/garbage/foreign signer) must be rejected; every stored confirmation is re-verified and must be executable by the contract model"),
  "C13": ("bridge", "exploration", "5 C13", "seeded oracle life cycles (bond, add-delegate, redelegate, slash, governance removal, unbonding period via clock jumps, unbond); registry bijection, stake ledger, justified-slash witness, bounded liveness of unbond after faults stop"),
  "C07": ("bridge", "exploration", "5 C07", "seeded search over aged states (crashed confirmers, elapsed signed windows, churn, governance); FinalizeBlock/Commit panics and errors are recovered and reported as halts"),
@@ -19,6 +23,10 @@ notes = {
  "C04": "FX is checked on the eth module escrow account (FX is also minted/staked); bridged coin checked on user-held supply; ERC-20 side read through read-only EVM calls",
  "C05": "the model never predicts which transfers a batch selects; refund exactness is checked in single-transaction blocks",
  "C06": "the external contract is a Go model written from FxBridgeLogic.sol (height < timeout, nonce rules, signature power), not the Solidity code itself",
+ "C09": "the reference is the same contracts executed with only the kept calls enabled and no reverts; a precompile that reports success to the EVM without applying its effects behaves the same in both runs and is not caught here",
+ "C10": "victim portfolios = bank balances, ERC-20 balances, delegation shares, share allowances, queued withdrawals; the CALL-inside-static-frame hole of the go-ethereum fork is a recorded known finding",
+ "C11": "reward amounts are not re-derived; reward bookkeeping is judged by the SDK's own distribution/staking/bank invariants run on a branch",
+ "C19": "the counter-party chain is the same app (loop-back); genesis is seeded with IBC history (denom traces, escrowed vouchers) because alias vouchers cannot be created otherwise at this commit",
  "C12": "digest equality is checked on the objects that arise in runs (honest confirmation accepted <=> digests agree), not on arbitrary 2^64 values; TRON digests only via the prefix fault",
  "C13": "validator slashing makes stake comparisons inexact; those comparisons are skipped once the oracle's validator has been slashed",
  "C07": "halts are Go panics/errors out of FinalizeBlock/Commit of the real app over MemDB; CometBFT itself is a stub",
@@ -44,6 +52,8 @@ m = {
  },
  "engines": [
   {"name": "bridge", "path": "fxsim/sim/bridge*.go", "serves_properties": ["C01","C02","C03","C04","C05","C06","C07","C12","C13"], "kind_free_text": "deterministic simulation: real app.App in-process; simulated oracles, external chain model, relayer, users, governance, validator faults, clock"},
+  {"name": "evm", "path": "fxsim/sim/evm*.go", "serves_properties": ["C08","C09","C10","C11"], "kind_free_text": "deterministic simulation: generated EVM programs (own assembler) against both precompiles on top of a bridge world; gas-limit and revert fault injection; branch execution through the real EVM keeper"},
+  {"name": "ibc", "path": "fxsim/sim/ibc_*.go", "serves_properties": ["C19"], "kind_free_text": "deterministic simulation: loop-back IBC channels (09-localhost) on the real app, seeded relayer with loss/duplication/reordering/timeouts"},
  ],
  "checks": [],
  "not_applicable": na,
